@@ -14,7 +14,7 @@
 //
 //	O set r|w <ms> | setpast r|w | both <ms> | clear r|w | clearboth | write full|short|err | flush full|short|err
 //	O close | wait                                   (virt)
-//	O conn | req small|big | wsup | msg | wait       (http / ws)
+//	O conn | req small|big | wsup | msg | ping | wait       (http / ws)
 //	Q g=<ms>                                         final observation, issued after every deadline + g
 //
 // exec annotates each op with at=/at2= (µs since the case started, before/after the call) and st=/post= (the conn
@@ -108,6 +108,8 @@ func gen(g *lp.Gen) {
 		switch {
 		case i%8 == 5:
 			genDial(g, i)
+		case g.Tier != "thorough" && i%16 == 13:
+			genWS(g, i) // WS keep-alive with heartbeats also in the quick tier
 		case g.Tier == "thorough" && i%8 == 6:
 			genHTTP(g, i)
 		case g.Tier == "thorough" && i%8 == 7:
@@ -279,10 +281,18 @@ func genWS(g *lp.Gen, id int) {
 	t += g.PickInt(5, 20, 40)
 	g.P("O wsup t=%d", t)
 	last := t + ka
-	n := g.Intn(4)
+	n := g.Intn(5)
+	// traffic of one kind only in half of the cases: heartbeat-only connections (pings only / unsolicited pongs only)
+	// are not silent and must stay open
+	only := g.Pick("", "", "ping", "pong")
 	for k := 0; k < n; k++ {
-		t += ka * g.PickInt(2, 5, 8) / 10
-		g.P("O msg t=%d", t)
+		t += ka * g.PickInt(2, 3, 5, 8) / 10
+		hb := g.Pick("msg", "ping", "pong")
+		if only != "" {
+			hb = only
+		}
+		// data messages and heartbeats (ping, answered by the default pong; unsolicited pong) all renew the keep-alive
+		g.P("O %s t=%d", hb, t)
 		last = t + ka
 	}
 	g.P("Q g=%d t=%d", gBound(g)+200, last+gBound(g)+200)
@@ -601,7 +611,7 @@ func runCase(cr *caseRun) {
 		st := e.observe()
 		e.judge(st)
 		// did a deadline in force exist and was it still ahead? (non-triviality: renew/clear before expiry)
-		if st.kind == "open" && (ws[1] == "set" || ws[1] == "clear" || ws[1] == "both" || ws[1] == "clearboth" || ws[1] == "msg" || ws[1] == "req") {
+		if st.kind == "open" && (ws[1] == "set" || ws[1] == "clear" || ws[1] == "both" || ws[1] == "clearboth" || ws[1] == "msg" || ws[1] == "ping" || ws[1] == "pong" || ws[1] == "req") {
 			now := e.us()
 			for d := 0; d < 2; d++ {
 				if e.tr.lo[d] > now {
@@ -1076,6 +1086,35 @@ func setupE2E(e *env, kind string, kaMs, wtMs int) (func(ws []string), func()) {
 				return
 			}
 			time.Sleep(2 * time.Millisecond) // the renewal runs after the handler returned
+			if c := e.nbc(); c != nil && !c.VerifState().Closed {
+				tr.set(0, t0+kaUs, e.us()+kaUs, t0)
+			}
+		case "ping":
+			if cli == nil {
+				return
+			}
+			_ = cli.SetDeadline(time.Now().Add(5 * time.Second))
+			if _, err := cli.Write([]byte{0x89, 0x81, 1, 2, 3, 4, 'p' ^ 1}); err != nil {
+				return
+			}
+			pong := make([]byte, 3)
+			if _, err := io.ReadFull(br, pong); err != nil {
+				return
+			}
+			time.Sleep(2 * time.Millisecond) // the renewal runs after the handler returned
+			if c := e.nbc(); c != nil && !c.VerifState().Closed {
+				tr.set(0, t0+kaUs, e.us()+kaUs, t0)
+			}
+		case "pong":
+			if cli == nil {
+				return
+			}
+			_ = cli.SetDeadline(time.Now().Add(5 * time.Second))
+			if _, err := cli.Write([]byte{0x8a, 0x81, 1, 2, 3, 4, 'q' ^ 1}); err != nil {
+				return
+			}
+			// nothing comes back for an unsolicited pong: give the poller and the handler a moment
+			time.Sleep(4 * time.Millisecond)
 			if c := e.nbc(); c != nil && !c.VerifState().Closed {
 				tr.set(0, t0+kaUs, e.us()+kaUs, t0)
 			}
